@@ -140,6 +140,7 @@ func loggingSink(c *Ctx) func(ci ssa.CallInstruction) (string, []int) {
 }
 
 func runC11(c *Ctx, r *Report) {
+	importFoundation(c, r, "C11", "interactive")
 	r.Rule("C11/T1", "inside a write gate the logged value depends on the data only when the redaction flag is false", 1)
 	r.Rule("C11/T2", "every gate call with tainted data passes constant true, the enclosing gate's own flag, or the HideInput of the same event", 5)
 	r.Rule("C11/T3", "every interactive event literal with tainted ChannelInput has HideInput: true", 1)
